@@ -58,14 +58,14 @@ CHECKS["C03"] = dict(
          "Correspondence: random attach/detach/move histories over two IRs on the working tree and the extracted model, get_by_uuid for every pool UUID on every IR after every step; "
          "direct oracle = reachability through public containment attributes; final states saved and loaded twice.",
     design="5 C03", technique="Coq proof (invariant CacheInv by induction over operation histories) + differential correspondence + reachability oracle",
-    note=WORLD_NOTE + "Known finding (kept, not repaired): assigning into ir.modules a module that is already at another position of the same list (D4); the model refuses that call shape.")
+    note=WORLD_NOTE + "The former known finding D4 (assigning into ir.modules a module already elsewhere in the same list, or named twice) was repaired upstream (fix 9a22f6d) and is inside model and streams. UUIDs are globally distinct in the model; equal UUIDs in different IRs (two loads, deep copies; a member exchanged for its twin by one ^=) are covered by the correspondence streams only.")
 CHECKS["C04"] = dict(
     text="Theorems (Props/C04.v, 19) for every reachable state: c in kids p <-> parent c = p; no duplicates; single parent; kinds layered; a move removes the node from its previous owner "
          "(set add, parent attribute for all six relations, module-list insert/append); accessors are walks of the back-pointers and reach = {n | ir_of n = ir}; frame: nodes not named keep "
          "their entry. Correspondence: histories over all entry points from members / non-members / nodes owned elsewhere; after every step parents, collections, accessors, aggregate "
          "iterators; direct oracle = forest consistency by set comparison; default-argument sharing probes.",
     design="5 C04", technique="Coq proof (invariant Forest by induction over operation histories, effect lemmas per operation) + differential correspondence + forest oracle",
-    note=WORLD_NOTE + "Aggregate iterators and constructor-argument copying are checked by the harness oracle (the model has no shared mutable defaults to get wrong). Known finding D4 as for C03.")
+    note=WORLD_NOTE + "Aggregate iterators and constructor-argument copying are checked by the harness oracle (the model has no shared mutable defaults to get wrong). Same-list / repeated-value assignment (former finding D4) as for C03.")
 CHECKS["C05"] = dict(
     text="Theorems (Props/C05.v, 23) for every reachable state and every query: the four interval-scope lookups return exactly the blocks satisfying the on/at criterion, each once; nothing without "
          "an address; code/data filters exact; section/module/IR scope: exact composition through byte_intervals_on plus the envelope (sound, complete inside the interval's extent, no duplicates). "
@@ -95,13 +95,13 @@ CHECKS["C13"] = dict(
     design="5 C13", technique="Coq proof (sortedness invariant + exactness of the range scan) + differential correspondence + fresh-scan oracle",
     note=WORLD_NOTE)
 CHECKS["C16"] = dict(
-    text="Theorems (Props/C16.v, 47) for reachable states: each of the ten set methods yields the Python set result (KeyError exactly when the built-in raises); every module-list method yields the list "
-         "result on the list from which a moved module was first removed (ValueError/IndexError exactly when the built-in raises); the expression map refines dict with iteration by offset; moved-not-duplicated; "
+    text="Theorems (Props/C16.v, 52) for reachable states: each of the ten set methods yields the Python set result (KeyError exactly when the built-in raises); every module-list method yields the list "
+         "result on the list from which a moved module was first removed (ValueError/IndexError exactly when the built-in raises); the expression map refines dict with iteration by offset; moved-not-duplicated, also for item / slice assignment of a module the list already holds or one named twice (C16_same_list_assignment_moves: kept at the last position assigned, the others keep their order); "
          "a failed operation leaves the state (and the invariant) unchanged; the read-only sequence interface (index with bounds, count, in, [i], [a:b:c], reversed) of the module list is "
          "Python's (Model/SeqOps.v: first position inside the clamped bounds, IndexError exactly outside [-len, len), slice positions s, s+c, ... as slice.indices gives them); the non-mutating set operators and comparisons inherited from collections.abc.Set (Model/SetAlg.v) are the mathematical ones on duplicate-free member lists. Correspondence + lock-step shadows: every call also made on built-in list/set/dict, incl. mixins, operators with plain sets on either "
          "side, explicit-step slices, foreign-kind and non-node arguments, out-of-range indices.",
     design="5 C16", technique="Coq proof (refinement of built-in semantics by effect lemmas) + differential correspondence + built-in shadow oracle",
-    note=WORLD_NOTE + "Non-mutating operators return plain sets since the upstream fix 12e88c6; their values are modelled by Model/SetAlg.v (the Set mixins), the result TYPE is judged by the shadow oracle only. Known finding D4 (same-list item/slice assignment) is stated as C16_same_list_assignment_refused.")
+    note=WORLD_NOTE + "Non-mutating operators return plain sets since the upstream fix 12e88c6; their values are modelled by Model/SetAlg.v (the Set mixins), the result TYPE is judged by the shadow oracle only. Same-list item/slice assignment (the former finding D4, repaired by fix 9a22f6d) is modelled by ml_assign / assign_slice and stated as C16_same_list_assignment_moves; extended-slice assignment (step other than 1) is judged by the shadow oracle only.")
 CHECKS["C11"] = dict(
     text="Theorems (Props/C11.v, 21) over Model/Cfg.v (cfg.py as coded: _edge_key, guarded add, keyed discard, the MutableSet mixins transcribed from CPython): every state reachable by any "
          "sequence of operations is a duplicate-free set of (source, target, label) triples; each operation is exactly the mathematical set operation and fails exactly when the built-in set would; "
